@@ -242,6 +242,34 @@ func (w *World) CheckProperty(prop, tier string, timeoutMs int, dump string, ver
 		for _, n := range names {
 			inNames[n] = true
 		}
+		// "sweep_methods UnmarshalYAML": a method of that name is swept from the day it is written, under contract or not
+		for _, sm := range w.C.SweepMethods {
+			if !hasTag(sm.Tags, prop) {
+				continue
+			}
+			all := make([]string, 0, len(w.P.Funcs))
+			for n := range w.P.Funcs {
+				all = append(all, n)
+			}
+			sort.Strings(all)
+			for _, n := range all {
+				fn := w.P.Funcs[n]
+				if fn == nil || len(fn.Blocks) == 0 || fn.Parent() != nil || fn.Synthetic != "" || fn.Signature.Recv() == nil || !w.P.InRepo(FuncPkgPath(fn)) {
+					continue
+				}
+				hit := false
+				for _, m := range sm.Callees {
+					hit = hit || fn.Name() == m
+				}
+				if !hit || inNames[n] || w.C.Funcs[n] != nil {
+					continue
+				}
+				w.C.Funcs[n] = &FuncContract{Name: n, Pkg: FuncPkgPath(fn), Sweep: true, SweepTags: []string{prop}, Tags: map[string]bool{prop: true},
+					Nilable: map[string]bool{}, File: sm.File, Line: sm.Line}
+				inNames[n] = true
+				names = append(names, n)
+			}
+		}
 		work := []string{}
 		for _, n := range names {
 			if fc := w.C.Funcs[n]; fc != nil && fc.Sweep && hasTag(fc.SweepTags, prop) {
